@@ -302,3 +302,86 @@ Section GWalk.
     pose proof (cnt_le_nobjs g st). pose proof (ecnt_le_nedges g st). split; lia.
   Qed.
 End GWalk.
+
+(* ----- packaged form: one record of obligations per walk ----- *)
+
+Record is_walk (g : gobj -> bool) (enter : gobj -> gobj) (pre : gstate -> nat -> res gstate)
+       (W : nat -> gstate -> nat -> res gstate) : Prop := mk_is_walk {
+  iw_S : forall f st s,
+    W (S f) st s =
+    if g (get st s) then giter (child pre W f) (enter_st enter st s) (edges (get st s)) else Ok st;
+  iw_0 : forall st s st', W 0 st s = Ok st' -> st' = st;
+  iw_off : forall o, g (enter o) = false;
+  iw_edges : forall o, edges (enter o) = edges o;
+  iw_freed : forall o, freed (enter o) = freed o;
+  iw_pre_not_oof : forall st t, pre st t <> OutOfFuel;
+  iw_pre_fr : forall st t st2, pre st t = Ok st2 -> fr st st2 /\ same_tr st st2;
+  iw_pre_mono : forall st t st2, pre st t = Ok st2 -> mono g st st2
+}.
+
+Section Packaged.
+  Variables (g : gobj -> bool) (enter : gobj -> gobj) (pre : gstate -> nat -> res gstate)
+            (W : nat -> gstate -> nat -> res gstate).
+  Hypothesis H : is_walk g enter pre W.
+
+  Lemma walk_fr f st s st' : W f st s = Ok st' -> fr st st'.
+  Proof. destruct H. eapply W_fr; eauto. Qed.
+
+  Lemma walk_mono f st s st' : W f st s = Ok st' -> mono g st st'.
+  Proof. destruct H. eapply W_mono; eauto. Qed.
+
+  Lemma walk_mono_p p f st s st' :
+    (forall o, p (enter o) = true -> p o = true) ->
+    (forall st t st2, pre st t = Ok st2 -> mono p st st2) ->
+    W f st s = Ok st' -> mono p st st'.
+  Proof. destruct H. intros. eapply W_mono_p; eauto. Qed.
+
+  Lemma walk_fuel fuel st s : cnt g st < fuel -> W fuel st s <> OutOfFuel.
+  Proof. destruct H. eapply W_fuel; eauto. Qed.
+
+  Lemma walk_fuel_le fuel st s :
+    g dummy = false -> (forall st s, g (get st s) = false -> W 0 st s <> OutOfFuel) ->
+    cnt g st <= fuel -> W fuel st s <> OutOfFuel.
+  Proof. destruct H. intros. eapply W_fuel_le; eauto. Qed.
+
+  Lemma walk_pot f st s st' :
+    edges_okP st -> s < nobjs st -> W f st s = Ok st' -> pot g st st'.
+  Proof. destruct H. eapply W_pot; eauto. Qed.
+
+  Lemma walks_fr fuel ns st st' : giter (W fuel) st ns = Ok st' -> fr st st'.
+  Proof. destruct H. eapply Ws_fr; eauto. Qed.
+
+  Lemma walks_mono_p p fuel ns st st' :
+    (forall o, p (enter o) = true -> p o = true) ->
+    (forall st t st2, pre st t = Ok st2 -> mono p st st2) ->
+    giter (W fuel) st ns = Ok st' -> mono p st st'.
+  Proof. destruct H. intros. eapply Ws_mono_p; eauto. Qed.
+
+  Lemma walks_fuel fuel ns st : cnt g st < fuel -> giter (W fuel) st ns <> OutOfFuel.
+  Proof. destruct H. eapply Ws_fuel; eauto. Qed.
+
+  Lemma walks_pot fuel ns st st' :
+    edges_okP st -> Forall (fun r => r < nobjs st) ns ->
+    giter (W fuel) st ns = Ok st' -> pot g st st'.
+  Proof. destruct H. eapply Ws_pot; eauto. Qed.
+
+  Lemma walks_cost fuel ns st st' :
+    edges_okP st -> Forall (fun r => r < nobjs st) ns ->
+    giter (W fuel) st ns = Ok st' ->
+    trace_calls st' <= trace_calls st + nobjs st /\ trace_edges st' <= trace_edges st + nedges st.
+  Proof. destruct H. eapply Ws_cost; eauto. Qed.
+
+  Lemma walk_enter_fr st s : fr st (enter_st enter st s).
+  Proof. destruct H. apply enter_fr; auto. Qed.
+
+  Lemma walk_enter_wcnt w st s :
+    s < nobjs st -> g (get st s) = true ->
+    wcnt w g (enter_st enter st s) + w (get st s) = wcnt w g st.
+  Proof. destruct H. apply enter_wcnt; auto. Qed.
+
+  Lemma walk_enter_pot st s : s < nobjs st -> g (get st s) = true -> pot g st (enter_st enter st s).
+  Proof. destruct H. apply enter_pot; auto. Qed.
+
+  Lemma walk_enter_mono st s : mono g st (enter_st enter st s).
+  Proof. destruct H. apply enter_mono; auto. Qed.
+End Packaged.
